@@ -538,8 +538,24 @@ func (st *fnState) storeInto(obj ssa.Value, fld string, a, c rootSet) {
 // fieldOf: (address roots, content roots) of what field fld of tracked fresh
 // object obj holds.
 func (st *fnState) fieldOf(obj ssa.Value, fld string) (rootSet, rootSet) {
-	a := st.contF[obj][fld].union(qualify(st.contF[obj]["*"], fld))
-	d := st.contFD[obj][fld].union(qualify(st.contFD[obj]["*"], fld))
+	var a, d rootSet
+	match := func(k string) bool {
+		return k == fld || strings.HasPrefix(k, fld+".") || strings.HasPrefix(fld, k+".")
+	}
+	for k, rs := range st.contF[obj] {
+		if k == "*" {
+			a = a.union(qualify(rs, fld))
+		} else if match(k) {
+			a = a.union(rs)
+		}
+	}
+	for k, rs := range st.contFD[obj] {
+		if k == "*" {
+			d = d.union(qualify(rs, fld))
+		} else if match(k) {
+			d = d.union(rs)
+		}
+	}
 	return a, st.reach(a, d)
 }
 
@@ -586,6 +602,13 @@ func cellTarget(v ssa.Value) ssa.Value {
 
 // baseObj follows address arithmetic to the fresh object an address lies in,
 // returning also the first (outermost) struct field selected on the way.
+func joinPath(outer, inner string) string {
+	if inner == "" {
+		return outer
+	}
+	return outer + "." + inner
+}
+
 func baseObj(v ssa.Value) (ssa.Value, string) {
 	field := ""
 	for i := 0; i < 16; i++ {
@@ -594,7 +617,7 @@ func baseObj(v ssa.Value) (ssa.Value, string) {
 		}
 		switch x := v.(type) {
 		case *ssa.FieldAddr:
-			field = fieldName(x.X.Type(), x.Field)
+			field = joinPath(fieldName(x.X.Type(), x.Field), field)
 			v = x.X
 		case *ssa.IndexAddr:
 			v = x.X
@@ -617,7 +640,7 @@ func firstField(v ssa.Value) (ssa.Value, string) {
 	for i := 0; i < 16; i++ {
 		switch x := v.(type) {
 		case *ssa.FieldAddr:
-			field = fieldName(x.X.Type(), x.Field)
+			field = joinPath(fieldName(x.X.Type(), x.Field), field)
 			v = x.X
 		case *ssa.IndexAddr:
 			v = x.X
@@ -788,21 +811,38 @@ func (e *Effects) analyse(f *ssa.Function) bool {
 					}
 				case *ssa.Field:
 					if pointerLike(in.Type()) {
-						// field of a struct value: qualify deep roots of parameters
-						fname := fieldName(in.X.Type(), in.Field)
-						cx := st.C(in.X)
-						q := rootSet{g: cx.g}
-						for _, d := range cx.d {
-							if d.field == "" {
-								q = q.union(dRootSet(d.idx, fname))
-							} else {
-								q = q.union(rootSet{d: []dRoot{d}})
+						// field (chain) of a struct value
+						root, path := ssa.Value(in), ""
+						for {
+							f, ok := root.(*ssa.Field)
+							if !ok {
+								break
+							}
+							path = joinPath(fieldName(f.X.Type(), f.Field), path)
+							root = f.X
+						}
+						if ld, ok := root.(*ssa.UnOp); ok && ld.Op == token.MUL {
+							// struct value loaded from a tracked local/fresh object
+							if obj, pre := baseObj(ld.X); obj != nil {
+								if _, ok := st.contF[obj]; ok {
+									a, c := st.fieldOf(obj, joinPath(pre, path))
+									if pre == "" {
+										a, c = st.fieldOf(obj, path)
+									}
+									st.setA(in, a)
+									st.setC(in, c)
+									break
+								}
 							}
 						}
-						q.s = cx.s
-						if prm, ok := in.X.(*ssa.Parameter); !ok || prm == nil {
-							q = cx
+						if _, ok := st.contF[root]; ok && st.A(root).empty() {
+							a, c := st.fieldOf(root, path)
+							st.setA(in, a)
+							st.setC(in, c)
+							break
 						}
+						cx := st.C(root)
+						q := qualify(cx, path)
 						st.setA(in, q)
 						st.setC(in, q)
 					}
@@ -816,8 +856,17 @@ func (e *Effects) analyse(f *ssa.Function) bool {
 						st.setA(in, st.C(in.X))
 						st.setC(in, st.C(in.X))
 					}
+				case *ssa.Range:
+					both(in, in.X)
+				case *ssa.Next:
+					st.setA(in, st.C(in.Iter))
+					st.setC(in, st.C(in.Iter))
 				case *ssa.Extract:
-					// per-index roots are set at the call
+					// for calls, per-index roots are set at the call; other tuples
+					// (comma-ok lookups, type assertions, range steps) propagate
+					if _, isCall := in.Tuple.(*ssa.Call); !isCall && pointerLike(in.Type()) {
+						both(in, in.Tuple)
+					}
 				case *ssa.Phi:
 					for _, ed := range in.Edges {
 						both(in, ed)
@@ -904,7 +953,11 @@ func (e *Effects) analyse(f *ssa.Function) bool {
 				if i >= len(s.RetAddr) || !pointerLike(v.Type()) {
 					continue
 				}
-				na, nc := s.RetAddr[i].union(st.A(v)), s.RetCont[i].union(st.C(v))
+				va := st.A(v)
+				if !addrLike(v.Type()) {
+					va = rootSet{} // an aggregate value is not an address
+				}
+				na, nc := s.RetAddr[i].union(va), s.RetCont[i].union(st.C(v))
 				if !na.equal(s.RetAddr[i]) || !nc.equal(s.RetCont[i]) {
 					s.RetAddr[i], s.RetCont[i] = na, nc
 					grew = true
@@ -1115,10 +1168,16 @@ func (e *Effects) call(f *ssa.Function, in ssa.CallInstruction, st *fnState, add
 			ca := st.C(a)
 			if d.field != "" {
 				q := rootSet{s: 0, g: ca.g}
+				agg := !addrLike(a.Type())
 				for _, x := range ca.d {
-					if x.field == "" {
+					switch {
+					case x.field == "":
 						q = q.union(dRootSet(x.idx, d.field))
-					} else {
+					case agg:
+						// the argument is an aggregate value (part of our own
+						// parameter's aggregate): field paths compose
+						q = q.union(dRootSet(x.idx, joinPath(x.field, d.field)))
+					default:
 						q = q.union(rootSet{d: []dRoot{x}})
 					}
 				}
